@@ -78,6 +78,10 @@ func BuildUnixFSFile(r io.Reader, chunker string, ls *ipld.LinkSystem) (ipld.Lin
 			if next.link == nil {
 				node := basicnode.NewBytes([]byte{})
 				link, err := ls.Store(ipld.LinkContext{}, leafLinkProto, node)
+				if err != nil {
+					// Store reports the computed link even when the commit failed
+					return nil, 0, err
+				}
 				return link, 0, err
 			}
 			return next.link, next.storedSize, nil
